@@ -468,6 +468,9 @@ func (h *hist) plan(s *snap) stepPlan {
 		sc, mangle = "v-27-28", "v27"
 	case k < 74:
 		sc, mangle = "v-2-3", "v23"
+		if r.Chance(60) { // V = v + 27j, j = 2..9: no signature the contract's ecrecover (v in {27,28}) could take
+			sc, mangle = "v-plus-multiple-of-27", "vfold"
+		}
 	case k < 77:
 		sc, mangle = "len-64", "len64"
 	case k < 80:
@@ -517,6 +520,8 @@ func (h *hist) plan(s *snap) stepPlan {
 		sig[64] += 27
 	case "v23":
 		sig[64] += 2
+	case "vfold":
+		sig[64] += 27 * byte(2+r.Intn(8))
 	case "len64":
 		sig = sig[:64]
 	case "len66":
@@ -992,3 +997,105 @@ func reuseProbe(rep *lib.Report, seed int64) {
 
 // Coq cases produced by the probe (appended to Cases_C12_imp.v)
 var probeItems []string
+
+// ---------------------------------------------------------------- the recovery byte V, swept
+
+// strictSigner: the independent verifier of what a stored confirmation must be for the external contract:
+// exactly 65 bytes, V in {0,1,27,28} (27/28 normalised to 0/1), go-ethereum's recovery yields addr.
+func strictSigner(chain string, checkpoint, sig []byte) (string, bool) {
+	if len(sig) != 65 {
+		return "", false
+	}
+	v := sig[64]
+	if v != 0 && v != 1 && v != 27 && v != 28 {
+		return "", false
+	}
+	return ownRecover(chain, checkpoint, ownNormalise(sig))
+}
+
+// vsweep: one genuine signature r‖s of a registered oracle over a stored object of the given kind that the oracle has
+// not confirmed yet; the 65th byte takes every value 0..255 and each message is judged by the real MsgServer on a
+// branch of the state that is thrown away (so all 256 see the same state).
+func (h *hist) vsweep(rep *lib.Report, stepNo, kind int) string {
+	pre := h.snapshot()
+	var target *storedObj
+	var orc *lib.Oracle
+	for _, o := range h.x.Oracles {
+		oa := pre.index[o.ExtAddr]
+		rec, ok := pre.oracles[oa]
+		if !ok || rec.BridgerAddress != o.Bridger.Acc().String() || pre.byBridger[rec.BridgerAddress] != oa {
+			continue
+		}
+		for i := range pre.objs {
+			t := &pre.objs[i]
+			if t.kind == kind && t.obj != nil && !pre.hasConf(t.kind, t.token, t.nonce, oa) {
+				target, orc = t, o
+			}
+		}
+		if target != nil {
+			break
+		}
+	}
+	if target == nil {
+		rep.Count("vsweep: no unconfirmed " + kindName[kind])
+		return ""
+	}
+	cp, err := RealCheckpoint(h.chain, target.real, pre.gid)
+	if err != nil {
+		return ""
+	}
+	preimage, hashOK := hashedBytes(target.obj, pre.gid, cp)
+	sig := ownSign(h.chain == "tron", cp, orc.External)
+	m := confirmMsg{kind: target.kind, token: target.token, nonce: target.nonce, bridger: orc.Bridger.Acc().String(), external: orc.ExtAddr}
+	ms := h.x.Msg()
+	var accepted, table []string
+	nAcc := 0
+	for v := 0; v < 256; v++ {
+		s65 := append(append([]byte{}, sig[:64]...), byte(v))
+		m.sigHex = hex.EncodeToString(s65)
+		inner := m.real(h.chain)
+		cctx, _ := h.c.Ctx.CacheContext() // never written back
+		var e error
+		func() {
+			defer func() {
+				if r := recover(); r != nil {
+					e = fmt.Errorf("PANIC: %v", r)
+				}
+			}()
+			switch x := inner.(type) {
+			case *crosschaintypes.MsgOracleSetConfirm:
+				_, e = ms.OracleSetConfirm(cctx, x)
+			case *crosschaintypes.MsgConfirmBatch:
+				_, e = ms.ConfirmBatch(cctx, x)
+			case *crosschaintypes.MsgBridgeCallConfirm:
+				_, e = ms.BridgeCallConfirm(cctx, x)
+			}
+		}()
+		if a, ok := ownRecover(h.chain, cp, s65); ok { // go-ethereum on the raw byte, no normalisation
+			table = append(table, lib.Pair(fmt.Sprint(v), fmt.Sprint(h.id64(a))))
+		}
+		if e == nil {
+			nAcc++
+			accepted = append(accepted, fmt.Sprint(v))
+			// ---- monitor: what the handler accepts (and would store) must be a signature the contract's rule verifies ----
+			if a, ok := strictSigner(h.chain, cp, s65); !ok || a != orc.ExtAddr {
+				rep.Fail(lib.Failure{Kind: "monitor", Sig: fmt.Sprintf("C12/accepted-unusable-v/%s", map[bool]string{true: "tron", false: "eth-family"}[h.chain == "tron"]),
+					What: fmt.Sprintf("%s %s confirm accepted with recovery byte V=%d: r‖s‖V is not a signature of the oracle's external key that go-ethereum or the contract's ecrecover (v in {27,28} after the v<27 -> v+27 normalisation) verifies", h.chain, kindName[kind], v),
+					Replay: map[string]interface{}{"history": h.id, "chain": h.chain, "seed": h.c.Seed, "step": stepNo, "op": "v-sweep", "kind": kindName[kind], "v": v,
+						"msg": map[string]interface{}{"nonce": m.nonce, "token": m.token, "bridger": m.bridger, "external": m.external, "signature": m.sigHex}, "log": append([]string{}, h.log...)}})
+			}
+		}
+	}
+	if nAcc != 2 {
+		rep.Count(fmt.Sprintf("vsweep: %d values of V accepted", nAcc))
+	}
+	rep.Count("vsweep:" + map[bool]string{true: "tron", false: "eth-family"}[h.chain == "tron"] + ":" + kindName[kind])
+	rep.Case(fmt.Sprintf("h%d/%d/vsweep", h.id, stepNo), true)
+	h.log = append(h.log, fmt.Sprintf("v-sweep %s nonce=%d accepted V=%v", kindName[kind], m.nonce, accepted))
+	pw := bytesL(preimage)
+	if !hashOK {
+		pw = "[]"
+	}
+	m.sigHex = hex.EncodeToString(append(append([]byte{}, sig[:64]...), 0))
+	return fmt.Sprintf("mk_vs_case %s %s %s %s %s %s", h.coqState(pre), h.coqMsg(m), bytesL(sig[:64]), pw, lib.List(table), lib.List(accepted))
+}
